@@ -577,6 +577,10 @@ class Kernel(Module):
         # Process the index
         index = index if isinstance(index, tuple) else (index,)
 
+        # The kernel's own batch shape - also for kernels that have no parameters of their own (e.g. MultitaskKernel)
+        if len(self._batch_shape):
+            new_kernel.batch_shape = torch.empty(1).expand(self._batch_shape)[index].shape
+
         for param_name, param in self.named_parameters(recurse=False):
             new_param = new_kernel.__getattr__(param_name)
             new_param.data = new_param.__getitem__(index)
